@@ -60,4 +60,6 @@ def compaction_obls(prefix):
     out.append(_one(prefix, 3, faults=0, nofree=1, ptr=0))
     out.append(_one(prefix, 4, faults=0, nofree=1, ptr=0))
     out.append(_one(prefix, 4, faults=0, nofree=1, ptr=0, seqbits=16))
+    out.append(_one(prefix, 5, faults=0, nofree=1, ptr=0))
+    out.append(_one(prefix, 3, faults=1, nofree=1, ptr=0))
     return out
